@@ -260,11 +260,14 @@ package parsley
 //@   ensures  r == n.Schema()
 //@   assigns  nothing
 
+//@ -- ownership of a result's list array: not a list; or allocated during the call that produced it (and then the
+//@ -- append permission comes with it when it has spare capacity); or full and without a permission anywhere
+//@ pure func ListOwn(n Node) bool = ListArr(n) == 0 || (freshid(ListArr(n)) && (ListSpare(n) > 0 ==> GhostSpare(ListArr(n)))) || (ListSpare(n) == 0 && !GhostSpare(ListArr(n)))
 //@ pure func Eof(r Reader, pos Pos) Pos = pos + Pos(r.Remaining(pos))
 
 //@ -- cache invariant: every stored result satisfies, for its own position, what the Parser contract
 //@ -- promises of a returned result (so that a cache hit may be returned as is)
-//@ pure func StoredOK(ctx *Context, res *Result, pos Pos) bool = res != nil && data.Inv(res.CurtailingParsers) && (res.Node != nil ==> NodeOK(res.Node) && ListSpare(res.Node) == 0 && !GhostSpare(ListArr(res.Node)) && EndsWithin(res.Node, pos, Eof(ctx.reader, pos))) && (res.Error != nil ==> pos <= res.Error.Pos() && res.Error.Pos() <= Eof(ctx.reader, pos) && res.Error.Pos() <= GhostMaxFail) && (res.Node == nil && res.Error == nil ==> GhostCurtailed)
+//@ pure func StoredOK(ctx *Context, res *Result, pos Pos) bool = res != nil && data.Inv(res.CurtailingParsers) && (res.Node != nil ==> NodeOK(res.Node) && ListSpare(res.Node) == 0 && (ListArr(res.Node) != 0 ==> !GhostSpare(ListArr(res.Node))) && EndsWithin(res.Node, pos, Eof(ctx.reader, pos))) && (res.Error != nil ==> pos <= res.Error.Pos() && res.Error.Pos() <= Eof(ctx.reader, pos) && res.Error.Pos() <= GhostMaxFail) && (res.Node == nil && res.Error == nil ==> GhostCurtailed)
 //@ pure func WfCache(ctx *Context) bool = WfCacheShape(ctx.resultCache) && forall i int, p Pos :: ctx.resultCache[i][p] != nil ==> InInput(ctx.reader, p) && StoredOK(ctx, ctx.resultCache[i][p], p)
 
 //@ -- PC: what every Parser promises and may rely on
@@ -274,8 +277,8 @@ package parsley
 //@   ensures  [ctx] WfCtx(ctx)
 //@   ensures  [cache] WfCache(ctx)
 //@   ensures  [PC1;C04] n == nil && err == nil ==> GhostCurtailed
-//@   ensures  [PC2;C07] n != nil ==> NodeOK(n) && (ListSpare(n) == 0 || (freshid(ListArr(n)) && GhostSpare(ListArr(n))))
-//@   ensures  [spare-frame;C07] forall a int :: !freshid(a) && old(GhostSpare(a)) ==> GhostSpare(a)
+//@   ensures  [PC2;C07] n != nil ==> NodeOK(n) && ListOwn(n)
+//@   ensures  [spare-frame;C07] forall a int :: !freshid(a) ==> GhostSpare(a) == old(GhostSpare(a))
 //@   ensures  [PC3;C02] n != nil ==> EndsWithin(n, pos, Eof(ctx.reader, pos))
 //@   ensures  [PC3e;C08] err != nil ==> pos <= err.Pos() && err.Pos() <= Eof(ctx.reader, pos)
 //@   ensures  [cp] data.Inv(cp)
